@@ -143,8 +143,8 @@ class World:
         return rid
 
 
-PKG_NAMES = ("zcvpkg_a", "zcvpkg_b", "zcvpkg_c", "zcvpkg_d", "zcvpkg_e")
-PKG_BROKEN = {"zcvpkg_nocomp": False, "zcvmod_plain": False, "zcvpkg_missing": False}
+PKG_NAMES = ("zcvsd_a", "zcvsd_b", "zcvsd_c", "zcvsd_d", "zcvsd_e")
+PKG_BROKEN = {"zcvsd_nocomp": False, "zcvsdmod_plain": False, "zcvsd_missing": False}
 
 
 def tokens_of(world):
@@ -259,13 +259,13 @@ def materialise(world, root):
             f.write(to_xml(world.docs[rid]))
     proot = os.path.join(root, "pkgs")
     os.makedirs(proot, exist_ok=True)
-    for name in list(PKG_NAMES) + ["zcvpkg_nocomp"]:
+    for name in list(PKG_NAMES) + ["zcvsd_nocomp"]:
         d = os.path.join(proot, name)
         os.makedirs(d, exist_ok=True)
         p = os.path.join(d, "__init__.py")
         if not os.path.exists(p):
             open(p, "w").close()
-    with open(os.path.join(proot, "zcvmod_plain.py"), "w") as f:
+    with open(os.path.join(proot, "zcvsdmod_plain.py"), "w") as f:
         f.write("# a module, not a package\n")
     for (pkg, file), rid in world.pkgfiles.items():
         d = proot
@@ -338,7 +338,7 @@ POOL = {
     "default": ["v", ""],
     "key": ["dk9", "", "9k", "D1", "d1"],
     "prefix": ["zcv.dts", ".dts", "9x", "zcv..x"],
-    "package": ["zcvpkg_a", "zcvpkg_nocomp", "zcvmod_plain", "zcvpkg_missing", "zcvpkg_a.", ""],
+    "package": ["zcvsd_a", "zcvsd_nocomp", "zcvsdmod_plain", "zcvsd_missing", "zcvsd_a.", ""],
     "src": ["", "nosuch#frag"],
     "file": ["", "sub/component.xml", "component.xml"],
 }
@@ -367,7 +367,7 @@ NEW_NODES = [
     lambda: N("metadefault", text="words"),
     lambda: N("sectiontype", {"name": "fresh-type"}),
     lambda: N("abstracttype", {"name": "fresh-abs"}),
-    lambda: N("import", {"package": "zcvpkg_e"}),
+    lambda: N("import", {"package": "zcvsd_e"}),
     lambda: N("bogus"),
     lambda: N("schema"),
     lambda: N("component"),
